@@ -193,7 +193,13 @@ QBld == <<
   BldDecl(32, <<AsSeq(0..31)>>, << ArrFld("bool", 1, 0, 4, 8, <<2>>, "rw"), Scalar("unat", 8, 24, "r"), Scalar("uarb", 4, 0, "rw"),
                                    LS(<< <<20, 23>>, <<5, 5>>, <<7, 7>>, <<9, 9>>, <<11, 11>> >>) >>, <<>>),
   BldDecl(64, <<AsSeq({63, 62, 33, 32, 31, 0})>>, << Scalar("inat", 32, 0, "rw"), ArrFld("bool", 1, 0, 32, 16, <<>>, "w"), Scalar("unat", 16, 48, "r") >>, <<>>),
-  BldDecl(24, <<AsSeq(0..23)>>, << ArrFld("inat", 8, 0, 0, 2, <<>>, "rw"), Scalar("unat", 8, 16, "r") >>, <<>>)
+  BldDecl(24, <<AsSeq(0..23)>>, << ArrFld("inat", 8, 0, 0, 2, <<>>, "rw"), Scalar("unat", 8, 16, "r") >>, <<>>),
+  (* long arrays: 9..24 elements, counts that are not multiples of 8 or 16, with and without default *)
+  BldDecl(24, <<>>, << ArrFld("bool", 1, 0, 0, 12, <<>>, "rw"), Scalar("uarb", 12, 12, "rw") >>, <<>>),
+  BldDecl(64, <<AsSeq({63, 62, 40, 39, 5, 4, 0})>>, << ArrFld("uarb", 4, 0, 0, 10, <<>>, "rw"), Scalar("unat", 16, 48, "r") >>, <<>>),
+  BldDecl(32, <<>>, << ArrFld("bool", 1, 0, 0, 20, <<>>, "rw"), Scalar("uarb", 12, 20, "rw") >>, <<>>),
+  BldDecl(128, <<AsSeq(0..127)>>, << ArrFld("uarb", 4, 0, 0, 24, <<>>, "rw"), ArrFld("bool", 1, 0, 96, 17, <<>>, "rw"), ArrFld("uarb", 1, 0, 113, 9, <<>>, "w") >>, <<>>),
+  BldDecl(100, <<>>, << ArrFld("uarb", 5, 0, 0, 20, <<>>, "rw") >>, <<>>)
   >>
 
 ---------------------------------------------------------------------------
